@@ -21,7 +21,8 @@ from yaql.language import utils as yutils
 
 RULE = ('(a) every registered definition x every visible parameter position '
         '(plus lambda-result and nested-in-list variants) x N in a small set '
-        'with an endless Python-level source carrying a pull budget of N+2; '
+        'with an endless Python-level source carrying a pull budget of N+2 '
+        '(a one-shot iterator, and an unsized re-iterable host collection); '
         '(b) Hypothesis: host data and expressions producing nested '
         'containers of sizes N-1, N, N+1; (c) pipeline templates over endless '
         'sources; (d) Hypothesis: grow chains (concatenation, repetition with '
@@ -105,7 +106,8 @@ def check_sweep(run, case):
     p = where[2]
     if variant == 'lambda-result' and p.cls != 'Lambda':
         return
-    src = Source(budget=n + 2)
+    src = common.ReSource(budget=n + 2) if case.get(
+        'srckind') == 'reiterable' else Source(budget=n + 2)
     call = W.default_call(d, case.get('fill', 0))
     target = {'direct': ('src', '$src'), 'lambda-result': ('src', '$src'),
               'in-list': ('src', '[$src]')}[variant]
@@ -130,7 +132,8 @@ def check_sweep(run, case):
     entered = d.id in _STATE['entered']
     ic = '%s(%s)/%s' % (d.fd.name, p.name, variant)
     run.case(case, entered or src.pulls > 0,
-             cls=['sweep', 'variant=' + variant] + (
+             cls=['sweep', 'variant=' + variant, 'source=' + case.get(
+                 'srckind', 'iterator')] + (
                  ['payload-entered'] if entered else []) + (
                  ['source-pulled'] if src.pulls else []))
     if aborted:
@@ -160,6 +163,12 @@ def _sweep_shard(run, part, parts, ns, fills):
                         jobs.append({'kind': 'sweep', 'def': d.id,
                                      'where': [w[0], w[1]],
                                      'variant': variant, 'n': n, 'fill': f})
+                if variant != 'lambda-result':
+                    # the same with an unsized re-iterable host collection
+                    jobs.append({'kind': 'sweep', 'def': d.id,
+                                 'where': [w[0], w[1]], 'variant': variant,
+                                 'n': ns[0], 'fill': 0,
+                                 'srckind': 'reiterable'})
     for c in jobs[part::parts]:
         check_sweep(run, c)
 
@@ -434,6 +443,24 @@ QUOTA_TEMPLATES = {
                      lambda c: sys.getsizeof(1 << (c['m'] * 64))),
     'int-in-list': ('[$big, 1].len()',
                     lambda c: sys.getsizeof(1 << (c['m'] * 64))),
+    # an oversized value built from within-quota operands *inside* a lambda
+    # body or a mapping rule and returned nested in a small container
+    'nested-select-concat': ('[1, 2].select(concat($h, $h))',
+                             lambda c: _str_size(2 * len(c['h']))),
+    'nested-select-plus': ('[1].select([$h + $h])',
+                           lambda c: _str_size(2 * len(c['h']))),
+    'nested-toDict': ("[1, 2].toDict($, $h.replace('x', 'xy'))",
+                      lambda c: _str_size(2 * len(c['h']))),
+    'nested-dict-rule': ('dict(a => $h + $h)',
+                         lambda c: _str_size(2 * len(c['h']))),
+    'nested-map-in-select': ('[1].select({k => $h + $h})',
+                             lambda c: _str_size(2 * len(c['h']))),
+    'nested-join': ("[1].select([$h, $h].join(''))",
+                    lambda c: _str_size(2 * len(c['h']))),
+    'nested-let': ('[let(x => $h + $h) -> [$x]]',
+                   lambda c: _str_size(2 * len(c['h']))),
+    'nested-list-plus': ('[1].select([$hl + $hl])',
+                         lambda c: _list_size(2 * len(c['hl']))),
     # a literal constant larger than the quota handed straight to a function
     'literal-len': ("len('{LIT}')", lambda c: _str_size(c['m'] * 4)),
     'literal-isString': ("isString('{LIT}')", lambda c: _str_size(c['m'] * 4)),
@@ -442,6 +469,25 @@ QUOTA_TEMPLATES = {
     'literal-let': ("let(x => '{LIT}') -> 1", lambda c: _str_size(c['m'] * 4)),
 }
 REPETITION = ('str*n', 'n*str', 'list*n', 'n*list', 'tuple*n')
+
+
+def _largest_own_size(x, depth=0):
+    """(own size, type name, depth) of the largest data value anywhere in a
+    result"""
+    best = (0, '-', depth)
+    if isinstance(x, DATA) and not isinstance(x, bool):
+        best = (sys.getsizeof(x, 0), type(x).__name__, depth)
+    if depth < 30:
+        kids = []
+        if isinstance(x, (dict, yutils.FrozenDict)):
+            kids = list(x.keys()) + list(x.values())
+        elif isinstance(x, (list, tuple, set, frozenset)):
+            kids = list(x)
+        for k in kids[:1000]:
+            b = _largest_own_size(k, depth + 1)
+            if b[0] > best[0]:
+                best = b
+    return best
 
 
 def check_quota(run, case):
@@ -455,6 +501,9 @@ def check_quota(run, case):
             'let(x => $x + $x) -> ' * case['d'] + '$x'
     text = text.replace('{LIT}', 'abcd' * case.get('m', 0))
     c['l'] = list(range(case.get('ll', 2)))
+    # operands of about 0.6 Q: within the quota, their concatenation is not
+    c['h'] = 'x' * max(int(q * 0.6) - 49, 1)
+    c['hl'] = tuple(range(max((int(q * 0.6) - 56) // 8, 1)))
     predicted = predict(c)
     ctx = _quota_ctx().create_child_context()
     for k in ('s', 'n', 'd', 'm'):
@@ -463,6 +512,8 @@ def check_quota(run, case):
     ctx['$l'] = c['l']
     ctx['$t'] = tuple(c['l'])
     ctx['$big'] = 1 << (case.get('m', 0) * 64)
+    ctx['$h'] = c['h']
+    ctx['$hl'] = c['hl']
     del _Q['seen'][:]
     eng = _engine(10 ** 6, q, convertInputData=False)
     run.guard(case)
@@ -489,13 +540,16 @@ def check_quota(run, case):
                     '%d' % (text, q, big[0][0], big[0][2], big[0][1]),
                     input_class=name + '->' + big[0][0])
         return
-    if out[0] == 'ok' and isinstance(out[1], DATA) and \
-            sys.getsizeof(out[1], 0) > q:
-        run.violate('oversize-value-returned', case,
-                    '%s under memoryQuota=%d returned a %s of own size %d' % (
-                        text, q, type(out[1]).__name__,
-                        sys.getsizeof(out[1], 0)), input_class=name)
-        return
+    if out[0] == 'ok':
+        worst = _largest_own_size(out[1])
+        if worst[0] > q:
+            run.violate('oversize-value-returned', case,
+                        '%s under memoryQuota=%d returned a %s of own size '
+                        '%d (%s)' % (text, q, worst[1], worst[0],
+                                     'top level' if worst[2] == 0 else
+                                     'nested at depth %d' % worst[2]),
+                        input_class=name)
+            return
     if out[0] == 'exc' and isinstance(out[1], MemoryError):
         run.violate('allocated-instead-of-refusing', case,
                     '%s under memoryQuota=%d raised MemoryError' % (text, q),
